@@ -126,7 +126,7 @@ def battery(tables, cfg, want, argsets):
         for s in str(c.message).split(': ', 1)[-1].split()))
     if st != 'ok':
         o.update({'lexicons': [], 'expanded': [], 'W': [], 'S': [], 'Y': [], 'desc': [], 'A': [], 'ident': [],
-                  'LK': [], 'mlists': [],
+                  'LK': [], 'mlists': [], 'RT': [],
                   'TS': [], 'TW': [],
                   'words': [], 'senses': [], 'synsets': []})
         return o
@@ -168,6 +168,28 @@ def battery(tables, cfg, want, argsets):
                             one(call(getattr(wn, kind), i, **mkw))])
     o['mlists'] = [names(call(wn.words, **mkw)), names(call(wn.senses, **mkw)),
                    names(call(wn.synsets, **mkw))]
+    # entities found by a form search (exactly, and only after normalisation) are the same
+    # entities as the listed ones: what they report must not depend on the route
+    listed_y = {tuple(name(x)): x for x in synsets}
+    listed_s = {tuple(name(x)): x for x in senses}
+    o['RT'] = []
+    lemmas = sorted({e[3] for e in tables['entries']})[:5]
+    for lem in lemmas:
+        for q in (lem, lem.upper()):
+            st_, found = call(w.synsets, q)
+            for y in (found if st_ == 'ok' else []):
+                k_ = tuple(name(y))
+                if k_ in listed_y:
+                    o['RT'].append(['Y', q] + name(y) + [names(call(y.get_related)),
+                                                         names(call(listed_y[k_].get_related)),
+                                                         names(call(y.senses)), names(call(listed_y[k_].senses))])
+            st_, found = call(w.senses, q)
+            for x in (found if st_ == 'ok' else []):
+                k_ = tuple(name(x))
+                if k_ in listed_s:
+                    o['RT'].append(['S', q] + name(x) + [one(call(x.synset)), one(call(listed_s[k_].synset)),
+                                                         names(call(x.get_related)),
+                                                         names(call(listed_s[k_].get_related))])
     o['W'] = []
     for x in words:
         fs = x.forms()
